@@ -55,7 +55,27 @@ def ok_spec(s):
 _BIAS = [False]  # sub-check gp-finite: small finite spaces driven to exhaustion with NaN metric values (diverged runs)
 
 
+_BIG1D = [False]  # sub-check grid-1d: one finite numeric range with up to 40 values, enumerated by grid / random search
+
+
 def gen_space(t, finite):
+    if _BIG1D[0]:
+        if t.bool():
+            # dense integer grids on a log (or linear) scale starting at a small value: neighbouring grid points round to
+            # neighbouring (or equal) integers
+            import math
+
+            lo = float(t.int(1, 3))
+            up = float(round(math.exp(t.float(math.log(lo + 1.0), math.log(1e6)))))
+            s = gd.DomSpec(t.weighted([(3, "logfinrange"), (1, "finrange")]), dict(lower=lo, upper=up, size=t.int(2, 40), cast_int=True))
+            gd.build(s)
+            if ok_spec(s) and s.finite_size() is not None and 2 <= s.finite_size() <= 40:
+                return {"lr": s}, {}
+        for _ in range(40):
+            s = gd.gen_domspec(t, kinds=["logfinrange", "finrange"], small=False)
+            if ok_spec(s) and s.finite_size() is not None and 2 <= s.finite_size() <= 40:
+                return {"lr": s}, {}
+        raise HarnessError("space")
     n = t.int(1, (2 if _BIAS[0] else 3) if finite else 4)
     names = t.permutation(gd.NAMES)[:n]
     specs = {}
@@ -368,7 +388,7 @@ def run_history(t, fam, finite):
 
     d = dp.ProtocolDriver(
         sched, t, result_fn, level_cap_fn=cap, n_workers=t.int(1, 4), max_trials=(space_size + 3) if (finite and space_size) else t.int(3, 10),
-        max_steps=(70 if _BIAS[0] else 30) if gp else (120 if finite else 60), checkpointing=True, allow_fail=t.chance(1, 3) and fam not in ("dehb", "sync-hb"), time_keeper=tk, early_complete=_BIAS[0],
+        max_steps=(70 if _BIAS[0] else 30) if gp else (300 if _BIG1D[0] else 120 if finite else 60), checkpointing=True, allow_fail=t.chance(1, 3) and fam not in ("dehb", "sync-hb"), time_keeper=tk, early_complete=_BIAS[0],
     )
     labels = {fam, "finite" if finite else "mixed"}
     if nan_values:
@@ -498,6 +518,14 @@ def case_modelfree(t):
     return run_history(t, fam, finite)
 
 
+def case_grid1d(t):
+    _BIG1D[0] = True
+    try:
+        return run_history(t, t.weighted([(3, "fifo-grid"), (1, "fifo-random")]), True)
+    finally:
+        _BIG1D[0] = False
+
+
 def case_gp(t):
     _BIAS[0] = False
     fam = t.choice(["fifo-bo", "hb-bo-stopping", "hb-bo-promotion"])
@@ -514,6 +542,7 @@ def case_gp_finite(t):
 
 SUBCHECKS = {
     "model-free": {"fn": case_modelfree, "quick": 30000, "thorough": 500000, "required": ["exhaustion", "initial-point", "failure", "pbt-explore", "grid-enumerated", "dehb", "rea"]},
+    "grid-1d": {"fn": case_grid1d, "quick": 3000, "thorough": 60000, "required": ["grid-enumerated", "exhaustion"]},
     "gp": {"fn": case_gp, "quick": 640, "thorough": 10000, "min_per_shard": 10, "required": ["model-based-suggestion", "initial-point"]},
     "gp-finite": {"fn": case_gp_finite, "quick": 1600, "thorough": 30000, "min_per_shard": 10, "required": ["model-based-suggestion", "exhaustion", "nan-metric-values"]},
 }
